@@ -643,14 +643,28 @@ class P(Prop):
         (M, "TV.C06.heapq_heappush", "heapq.heappush (append + _siftdown) keeps the heap invariant and adds exactly the item (permutation)"),
         (M, "TV.C06.heapq_heappop_min", "heapq.heappop (_siftup: bubble to a leaf, then _siftdown) returns a minimum of the multiset, leaves the other items, keeps the heap invariant; fails iff empty"),
         (M, "TV.C06.heapq_heapify", "heapq.heapify turns any list into a heap with the same items"),
+        (M, "TV.C06.routing_settings_per_object", "several Network objects, setRoutingMethod / setAStarWeight / calls interleaved in any order: each object ends in the state and returns the answers of the calls addressed to it alone (the settings are per instance)"),
+        (M, "TV.C06.own_setting_dijkstra_is_session", "an object whose own routing_mode is not 1 (the default) answers every call as the session model, whatever its astar_wgt; the setters change their own object's two attributes only"),
+        (M, "TV.C06.no_target_no_heuristic", "in A* mode every call other than a search with a target (list form, all_shortest_distances, prepare, sub_network) is the Dijkstra call: the heuristic is never computed"),
+        (M, "TV.C06.astar_zero_heuristic_is_dijkstra", "A* with a heuristic that is 0 everywhere (astar_wgt = 0, or all nodes at the target's place) runs as Dijkstra: shortest_distance(s,t) = the true minimum, sentinel iff unreachable"),
+        (M, "TV.C06.astar_as_coded_bounds", "the A* branch as coded (poids = g + accumulated heuristic), any heuristic >= 0: a reported value is never below the weight of a permitted walk; without a cut-off the sentinel iff no walk exists"),
+        (M, "TV.C06.astar_as_coded_inflates", "the A* branch as coded is NOT exact even for a consistent heuristic: on the road 0-10-1-10-2 it reports 30, the distance (and the repaired variant's answer) is 20 (finding astar-label-accumulates-heuristic)"),
+        (M, "TV.C06.astar_fixed_exact", "the repaired A* (label g, queue priority g + h) is exact for every consistent heuristic: the minimum over permitted walks, sentinel iff none"),
+        (M, "TV.C06.consistent_of_scaled_metric", "edges weighing at least astar_wgt x the distance between their ends + the triangle inequality make the heuristic consistent (the configuration the oracle holds A* to the statement for)"),
     ]
     partial = []
     open_statements = ["float weights: the theorems need only a linear order, a + 0 = a, 0 <= w -> a <= a + w and a <= b -> a + w <= b + w (no associativity: code and Walk both add from the source outwards), "
                        "which IEEE round-to-nearest addition has on non-NaN doubles; they are stated with Mathlib's ordered-monoid classes, so the instance for IEEE doubles is not constructed in Lean "
                        "(the float stream compares with exact rational distances at 1e-9 relative)",
                        "save_prep / load_prep are modelled as 'the dictionary read back is the dictionary written' (numpy's pickle is exercised by the sessions, not modelled); "
-                       "sub_network in GEOMETRIC mode and A* mode are outside the model"]
-    modelled = ("Network.addNode / addEdge (NEXT_EDGES by orientation), __resetFlags, run_routing_forward in Dijkstra mode (pop by (poids, node id), stop tests "
+                       "sub_network in GEOMETRIC mode is outside the model",
+                       "A* as coded (routing_mode = 1, a target, heuristic not 0) does not satisfy the statement (theorem astar_as_coded_inflates; finding astar-label-accumulates-heuristic, "
+                       "findings/C06.json): only astar_as_coded_bounds is proved for it; exactness is proved for the repaired variant (astar_fixed_exact, exact arithmetic, no cut-off). "
+                       "The Euclidean triangle inequality behind `consistent_of_scaled_metric` is a hypothesis (sqrt is a parameter of the model)"]
+    modelled = ("Network.__init__ (routing_mode, astar_wgt as instance attributes), setRoutingMethod, setAStarWeight, the A* branch of run_routing_forward as coded "
+                "(heuristic = astar_wgt * fils.distanceTo(NODES[target]) when routing_mode == 1 and a target is given, added into fils.poids; relaxation test without it), "
+                "Node.distanceTo / ENUCoords.distanceTo / norm, several Network objects alive at once (Model/GraphAStar.lean, which also holds the repaired A* `forwardFix`); "
+                "Network.addNode / addEdge (NEXT_EDGES by orientation), __resetFlags, run_routing_forward in Dijkstra mode (pop by (poids, node id), stop tests "
                 "before recording, 'other end' rule, visite guard, strict < relaxation, output_dict), shortest_distance (pair and list form, ids or Node objects, with output_dict), "
                 "all_shortest_distances (fresh or caller's dictionary), prepare, prepared_shortest_distance, has_prepared_shortest_distance, sub_network (TOPOLOGIC) — "
                 "as pure functions (Model/Graph.lean) and as a state machine over call sequences on one object (Model/GraphSession.lean); "
@@ -659,7 +673,8 @@ class P(Prop):
                 "(proved equal to the abstract loop)")
     trusted = ["CPython's _heapq C accelerator is taken to run the algorithm of Lib/heapq.py (checked position by position on random operation sequences by the hq and pq streams); "
                "Node.__lt__ compares ids, so (poids, Node) tuples are ordered as (priority, id)",
-               "A* routing mode (routing_mode = 1) is outside the model"]
+               "math.sqrt on the squared distances of the exact world stream (rational squares: nodes on a line or on the corners of 3k x 4k rectangles) is exact; "
+               "int ** 2 / float ** 2 of the coordinates used is exact"]
     rule = ("every multigraph on <= 3 nodes with <= 2 edges as ordered edge lists (quick) and with 3 edges as multisets in shuffled order (thorough), "
             "weights {0,1,2}, orientations {-1,0,1}, self-loops and parallel edges included, node insertion order shuffled; random graphs to 12 nodes / 40 edges "
             "with integer and dyadic weights. Per graph: every ordered pair, cut-offs below/equal/above each distinct distance (a sample of them for the "
@@ -670,7 +685,14 @@ class P(Prop):
             "the flags read back, all_shortest_distances, prepare/prepared/has_prepared, save_prep+load_prep through a temporary file, sub_network followed by searches on the returned network that shares the Node objects; "
             "cut-offs none/0/.5/1/2/3/5; ids, the network's Node objects or fresh equal Node objects as arguments; a caller's dictionary passed repeatedly as output_dict), every answer "
             "checked against Floyd-Warshall on the graph as built so far. "
-            "Several (2-3) small networks alive at the same time with their calls interleaved. Every case is evaluated on freshly executed definitions of network.py / utils.py "
+            "Several (2-3) small networks alive at the same time with their calls interleaved. "
+            "Worlds: 2-3 Network objects (2-5 nodes each, placed on a line, on the corners of a 3k x 4k rectangle, or all at one point, so that every distance is rational), created at "
+            "random moments, 8-34 calls interleaved: the session calls above plus setRoutingMethod(0/1) and setAStarWeight(0, 1/2, 1, 3/2, 2) on individual objects; edge weights "
+            "either metric (straight-line distance x 1, 3/2, 2, 3) or arbitrary. Each object's answers are judged with ITS OWN settings: Dijkstra -> the statement; A* without a target -> the "
+            "statement; A* with a target and a consistent heuristic (0 <= astar_wgt, every weight >= astar_wgt x straight-line length; includes astar_wgt = 0) -> the statement "
+            "(failures there with a too-large value are the finding astar-label-accumulates-heuristic; such calls are generated only once that finding is listed in known_findings.json); "
+            "A* with a target otherwise (documented as approximate) -> sentinel iff unreachable when there is no cut-off, and never below the minimum. "
+            "Every case is evaluated on freshly executed definitions of network.py / utils.py "
             "(state kept at module, class or default-argument level cannot leak from one case to the next: a failing case fails in a fresh process). "
             "non-trivial = at least one ordered pair s != t is joined by a walk (graphs) / at least one pop (priority_dict, heapq) / a distance query after an edge was added (sessions)")
 
